@@ -199,3 +199,10 @@ prop("C07",
      technique="property-based stress testing (rapid-drawn histories) with the Go race detector and a sequential-baseline differential oracle",
      rule="Non-trivial = at least two requests were in flight at the same time (measured with atomic start/finish stamps); distinct by case hash.",
      runs=[dict(test="^TestC07$", race=True, quick=dict(checks=150), thorough=dict(checks=1500, shards=8, timeout=3000))])
+
+prop("C16",
+     level_text="schedule search with harness-owned gates (rapid): documents with 1-6 gated resolver invocations (nested, in lists), a context the harness ends itself (cancel or deadline as a logical event; also stock context.WithCancel / an already expired WithDeadline), cancellation point drawn from {before the call, while resolver k is blocked for every k, after the last resolver, never, racing the last gate}, resolvers that ignore or observe the context, entries Do and PlanQuery+ExecutePlan; oracle = while a resolver is still blocked the call returns with no data and exactly the context's error; without cancellation the complete response; in racing schedules one of the two and nothing else; afterwards no library goroutine survives",
+     note="'promptly' = returns while the gate of the blocked resolver is still closed (watchdog 20 s >> microseconds); interleavings inside the library between its two goroutines are sampled, not enumerated; built with -race",
+     technique="property-based testing (rapid) over harness-controlled schedules (logical gates instead of sleeps)",
+     rule="Non-trivial = cancellation at an interior resolver (0 < k < n) or racing completion; distinct by case hash.",
+     runs=[dict(test="^TestC16$", race=True, quick=dict(checks=400), thorough=dict(checks=4000, shards=16, timeout=3000))])
